@@ -513,7 +513,7 @@ func (e *Exec) callClosure(st *State, c *Closure, sig *types.Signature, args []V
 	}
 	for _, s := range e.stack {
 		if s == c.Name {
-			e.fail(x.Pos(), "recursive closure %s needs a contract", c.Name)
+			e.fail(c.Lit.Pos(), "recursive closure %s needs a contract", c.Name)
 		}
 	}
 	return e.inline(st, c.Pkg, c.Lit, c.Lit.Type, c.Lit.Body, nil, sig, nil, args, c.Name, x)
